@@ -114,7 +114,7 @@ def replay_wrap(call):
     return [w for _, w in _jobs([dict(kind='tod', rows=[list(r) for r in B.TOD_ROWS]), dict(kind='tod', rows=[list(r) for r in B.TOD_ROWS[::2]])])]
 
 
-def replay(call):
+def _replay(call):
     kind = call.get('kind')
     if kind == 'lists' and call.get('which') in ('columns', 'unslice'):
         kind = 'columns'
@@ -125,3 +125,8 @@ def replay(call):
         return dict(fails=None, detail='no native battery for %r' % kind)
     bad = fn(call)
     return dict(fails=bool(bad), detail=('; '.join(bad))[:600] if bad else 'the clause holds on the real code for the whole battery of this obligation family')
+
+
+def replay(call):
+    from rac.ded_cache import cached
+    return cached(__name__, call, lambda: _replay(call), uses=('c',), deps=(__file__, B.__file__))
